@@ -60,6 +60,47 @@ func treeFeature(s *pbref.Schema, root *pbref.Val, buf []byte, recursive bool) s
 	return f
 }
 
+var largestCache = map[string][]byte{}
+
+// largestMessage: the longest reference encoding among the program's messages (the reuse partner).
+func largestMessage(s *pbref.Schema, tier string) []byte {
+	k := s.ID + "/" + tier
+	if b, ok := largestCache[k]; ok {
+		return b
+	}
+	var best []byte
+	for _, m := range pbref.StdMessages(s, tier) {
+		if b := s.Encode(pbref.Normalize(m.V)); len(b) > len(best) && len(b) < 1<<16 {
+			best = b
+		}
+	}
+	largestCache[k] = best
+	return best
+}
+
+var partnersCache = map[string][][]byte{}
+
+// reusePartners: the messages loaded on the tree before the message under test. The largest message of the
+// program; for the hand-built nested trees (sub-messages, empty sub-messages, containers of messages at depth
+// <= 4) every message of the program, so that every slot kind meets every other slot kind.
+func reusePartners(s *pbref.Schema, tier string) [][]byte {
+	k := s.ID + "/" + tier
+	if p, ok := partnersCache[k]; ok {
+		return p
+	}
+	out := [][]byte{largestMessage(s, tier)}
+	if s.ID == "nested" {
+		out = nil
+		for _, m := range pbref.StdMessages(s, tier) {
+			if b := s.Encode(pbref.Normalize(m.V)); len(b) < 1<<12 {
+				out = append(out, b)
+			}
+		}
+	}
+	partnersCache[k] = out
+	return out
+}
+
 func domGroups(tier string) []group {
 	var gs []group
 	for _, s := range pbref.StdPrograms(tier) {
@@ -97,10 +138,25 @@ func domGroups(tier string) []group {
 								return r
 							}
 							n := int64(0)
-							for _, recurse := range []bool{false, true} {
+							type variantT struct {
+								recurse, reuse bool
+								partner        []byte
+							}
+							variants := []variantT{{false, false, nil}, {true, false, nil}}
+							for _, pb := range reusePartners(s, tier) {
+								variants = append(variants, variantT{false, true, pb}, variantT{true, true, pb})
+							}
+							for _, variant := range variants {
+								partner := variant.partner
+								recurse := variant.recurse
 								mode := "lazy"
 								if recurse {
 									mode = "recursive"
+								}
+								if variant.reuse {
+									// non-initial start state: the same tree has loaded (recursively) the largest message of the
+									// program before; nothing of it may survive the second Load
+									mode += ",reused-tree"
 								}
 								trig := mode + "," + treeFeature(s, root, buf, recurse)
 								where := fmt.Sprintf("%s %s (bytes %s), Load(recurse=%v)", s.ID, root, hx(buf), recurse)
@@ -110,6 +166,13 @@ func domGroups(tier string) []group {
 								pi := core.Catch(func() {
 									rv := wrap(d, buf)
 									pn := generic.PathNode{Node: rv.Node}
+									if variant.reuse {
+										pn.Node = wrap(d, partner).Node
+										if pn.Load(true, &generic.Options{}, d) != nil {
+											return // the partner's own load is judged in its own case
+										}
+										pn.Node = rv.Node
+									}
 									if lerr = pn.Load(recurse, &generic.Options{}, d); lerr != nil {
 										return
 									}
